@@ -26,7 +26,7 @@ LEVEL = 'exploration'
 SHARDS = {'quick': 4, 'thorough': 16}
 BUDGET = {'quick': 18, 'thorough': 170}
 
-STEP_KINDS = ('recv', 'send', 'close', 'rstart', 'rcancel', 'rawait')
+STEP_KINDS = ('recv', 'recv2', 'send', 'close', 'rstart', 'rcancel', 'rawait')
 K_FAILED_SEND = 'recv-after-failed-send-skips-buffered-messages'
 
 
@@ -156,6 +156,13 @@ class Run:
                 elif kind == 'recv':
                     v = await self._recv_into_R(ws)
                     out = ('value', v)
+                elif kind == 'recv2':
+                    # two receives back to back: no event-loop iteration in between when both are served
+                    # from the queue (queued receives do not suspend)
+                    v1 = await self._recv_into_R(ws)
+                    handed = len(self.R)
+                    v2 = await self._recv_into_R(ws)
+                    out = ('value', v1, v2)
                 elif kind == 'send':
                     await ws.send_text('s%d' % i)
                     out = ('ok',)
@@ -292,7 +299,7 @@ class Run:
             probs.append(('no-quiescence', {}))
         # -- lost wake-up: the application waits in a receive although something is available
         br = self.receiver()
-        waiting_recv = self.in_op in ('recv', 'rawait') or (self.rtask is not None and not self.rtask.done())
+        waiting_recv = self.in_op in ('recv', 'recv2', 'rawait') or (self.rtask is not None and not self.rtask.done())
         if waiting_recv and br is not None:
             avail = len(br._messages) > 0 or len(self.server.inbox) > 0
             if avail:
@@ -310,7 +317,7 @@ class Run:
             rec.count('mon.op.' + kind)
             if out[0] == 'exc':
                 probs.append(('unexpected-exception', {'op': kind, 'exc': out[1]}))
-            if kind in ('recv', 'rawait', 'rcancel') and out[0] == 'disconnected':
+            if kind in ('recv', 'recv2', 'rawait', 'rcancel') and out[0] == 'disconnected':
                 rec.count('mon.disconnect_to_receiver')
                 if not closed_by_app:
                     # everything that preceded the disconnect must have been handed over first
@@ -399,7 +406,7 @@ def valid_script(script):
             if not pending:
                 return False
             pending = False
-        elif s in ('recv', 'rstart'):
+        elif s in ('recv', 'recv2', 'rstart'):
             if pending:
                 return False
             if s == 'rstart':
@@ -508,7 +515,7 @@ def configs(quick):
         for script in itertools.product(STEP_KINDS, repeat=m):
             if not valid_script(script):
                 continue
-            for k in range(0, kmax + 1):
+            for k in range(0, (kmax + 2 if m <= 1 else kmax) + 1):
                 for disc in (False, True):
                     for cap in caps:
                         if cap > k + 1:
@@ -548,7 +555,7 @@ def run(rec):
             script = []
             pending = False
             for _ in range(m):
-                opts = ['send', 'close'] if pending else ['recv', 'recv', 'send', 'close', 'rstart']
+                opts = ['send', 'close'] if pending else ['recv', 'recv', 'recv2', 'recv2', 'send', 'close', 'rstart']
                 if pending:
                     opts += ['rcancel', 'rawait', 'rawait']
                 if rng.random() < 0.7 and 'close' in opts:
